@@ -27,7 +27,7 @@ from rules import malsec, C08
 LEVEL = "other"
 EXPLANATION = "C03: capacity and sizing relations between compiler-evaluated proof constants, shape of the Fiat-Shamir challenge map, verdict guard, prover/verifier table pairing."
 CONFIGS_QUICK = ["Q"]
-CONFIGS_THOROUGH = ["Q", "P", "M"]
+CONFIGS_THOROUGH = ["Q", "P", "M", "N"]
 
 DV = "protocol::context::dzkp_validator::"
 MS = "protocol::ipa_prf::malicious_security::"
